@@ -71,11 +71,7 @@ template <bool NoneIsLeaf>
                                                  const py::function& unflatten_func,
                                                  const py::object& path_entry_type,
                                                  const std::string& registry_namespace) {
-    if (sm_builtins_types.find(cls) != sm_builtins_types.end()) [[unlikely]] {
-        throw py::value_error("PyTree type " + PyRepr(cls) +
-                              " is a built-in type and cannot be re-registered.");
-    }
-
+    // NOTE: must not call back into Python while holding the lock.
     PyTreeTypeRegistry* const registry = Singleton<NoneIsLeaf>();
     auto registration = std::make_shared<std::remove_const_t<RegistrationPtr::element_type>>();
     registration->kind = PyTreeKind::Custom;
@@ -84,57 +80,11 @@ template <bool NoneIsLeaf>
     registration->unflatten_func = py::reinterpret_borrow<py::function>(unflatten_func);
     registration->path_entry_type = py::reinterpret_borrow<py::object>(path_entry_type);
     if (registry_namespace.empty()) [[unlikely]] {
-        if (!registry->m_registrations.emplace(cls, std::move(registration)).second) [[unlikely]] {
-            throw py::value_error("PyTree type " + PyRepr(cls) +
-                                  " is already registered in the global namespace.");
-        }
-        if (IsStructSequenceClass(cls)) [[unlikely]] {
-            PyErr_WarnEx(PyExc_UserWarning,
-                         ("PyTree type " + PyRepr(cls) +
-                          " is a class of `PyStructSequence`, "
-                          "which is already registered in the global namespace. "
-                          "Override it with custom flatten/unflatten functions.")
-                             .c_str(),
-                         /*stack_level=*/2);
-        } else if (IsNamedTupleClass(cls)) [[unlikely]] {
-            PyErr_WarnEx(PyExc_UserWarning,
-                         ("PyTree type " + PyRepr(cls) +
-                          " is a subclass of `collections.namedtuple`, "
-                          "which is already registered in the global namespace. "
-                          "Override it with custom flatten/unflatten functions.")
-                             .c_str(),
-                         /*stack_level=*/2);
-        }
+        EXPECT_TRUE(registry->m_registrations.emplace(cls, std::move(registration)).second);
     } else [[likely]] {
-        if (!registry->m_named_registrations
-                 .emplace(std::make_pair(registry_namespace, cls), std::move(registration))
-                 .second) [[unlikely]] {
-            std::ostringstream oss{};
-            oss << "PyTree type " << PyRepr(cls) << " is already registered in namespace "
-                << PyRepr(registry_namespace) << ".";
-            throw py::value_error(oss.str());
-        }
-        if (IsStructSequenceClass(cls)) [[unlikely]] {
-            std::ostringstream oss{};
-            oss << "PyTree type " << PyRepr(cls)
-                << " is a class of `PyStructSequence`, "
-                   "which is already registered in the global namespace. "
-                   "Override it with custom flatten/unflatten functions in namespace "
-                << PyRepr(registry_namespace) << ".";
-            PyErr_WarnEx(PyExc_UserWarning,
-                         oss.str().c_str(),
-                         /*stack_level=*/2);
-        } else if (IsNamedTupleClass(cls)) [[unlikely]] {
-            std::ostringstream oss{};
-            oss << "PyTree type " << PyRepr(cls)
-                << " is a subclass of `collections.namedtuple`, "
-                   "which is already registered in the global namespace. "
-                   "Override it with custom flatten/unflatten functions in namespace "
-                << PyRepr(registry_namespace) << ".";
-            PyErr_WarnEx(PyExc_UserWarning,
-                         oss.str().c_str(),
-                         /*stack_level=*/2);
-        }
+        EXPECT_TRUE(registry->m_named_registrations
+                        .emplace(std::make_pair(registry_namespace, cls), std::move(registration))
+                        .second);
     }
 }
 
@@ -143,49 +93,93 @@ template <bool NoneIsLeaf>
                                              const py::function& unflatten_func,
                                              const py::object& path_entry_type,
                                              const std::string& registry_namespace) {
-    const scoped_write_lock_guard lock{sm_mutex};
+    const auto is_registered = [&cls, &registry_namespace]() -> bool {
+        PyTreeTypeRegistry* const registry = Singleton<NONE_IS_NODE>();
+        if (registry_namespace.empty()) [[unlikely]] {
+            return registry->m_registrations.find(cls) != registry->m_registrations.end();
+        }
+        return registry->m_named_registrations.find(std::make_pair(registry_namespace, cls)) !=
+               registry->m_named_registrations.end();
+    };
+    const auto in_namespace = [&registry_namespace]() -> std::string {
+        if (registry_namespace.empty()) [[unlikely]] {
+            return "in the global namespace";
+        }
+        return "in namespace " + PyRepr(registry_namespace);
+    };
 
-    RegisterImpl<NONE_IS_NODE>(cls,
-                               flatten_func,
-                               unflatten_func,
-                               path_entry_type,
-                               registry_namespace);
-    RegisterImpl<NONE_IS_LEAF>(cls,
-                               flatten_func,
-                               unflatten_func,
-                               path_entry_type,
-                               registry_namespace);
-    cls.inc_ref();
-    flatten_func.inc_ref();
-    unflatten_func.inc_ref();
-    path_entry_type.inc_ref();
+    // Validate first. The error messages and the warnings call back into Python, which must happen
+    // neither while holding the lock nor after the registry has been modified.
+    bool is_builtin = false;
+    bool is_duplicate = false;
+    {
+        const scoped_read_lock_guard lock{sm_mutex};
+        is_builtin = (sm_builtins_types.find(cls) != sm_builtins_types.end());
+        is_duplicate = !is_builtin && is_registered();
+    }
+    if (is_builtin) [[unlikely]] {
+        throw py::value_error("PyTree type " + PyRepr(cls) +
+                              " is a built-in type and cannot be re-registered.");
+    }
+    if (is_duplicate) [[unlikely]] {
+        throw py::value_error("PyTree type " + PyRepr(cls) + " is already registered " +
+                              in_namespace() + ".");
+    }
+
+    const bool is_structseq = IsStructSequenceClass(cls);
+    if (is_structseq || IsNamedTupleClass(cls)) [[unlikely]] {
+        std::ostringstream oss{};
+        oss << "PyTree type " << PyRepr(cls)
+            << (is_structseq ? " is a class of `PyStructSequence`, "
+                             : " is a subclass of `collections.namedtuple`, ")
+            << "which is already registered in the global namespace. "
+               "Override it with custom flatten/unflatten functions";
+        if (!registry_namespace.empty()) [[likely]] {
+            oss << " " << in_namespace();
+        }
+        oss << ".";
+        if (PyErr_WarnEx(PyExc_UserWarning, oss.str().c_str(), /*stack_level=*/2) < 0)
+            [[unlikely]] {
+            throw py::error_already_set();
+        }
+    }
+
+    {
+        const scoped_write_lock_guard lock{sm_mutex};
+        is_duplicate = is_registered();
+        if (!is_duplicate) [[likely]] {
+            RegisterImpl<NONE_IS_NODE>(cls,
+                                       flatten_func,
+                                       unflatten_func,
+                                       path_entry_type,
+                                       registry_namespace);
+            RegisterImpl<NONE_IS_LEAF>(cls,
+                                       flatten_func,
+                                       unflatten_func,
+                                       path_entry_type,
+                                       registry_namespace);
+            cls.inc_ref();
+            flatten_func.inc_ref();
+            unflatten_func.inc_ref();
+            path_entry_type.inc_ref();
+        }
+    }
+    if (is_duplicate) [[unlikely]] {  // lost a race against another registration
+        throw py::value_error("PyTree type " + PyRepr(cls) + " is already registered " +
+                              in_namespace() + ".");
+    }
 }
 
 template <bool NoneIsLeaf>
 /*static*/ PyTreeTypeRegistry::RegistrationPtr PyTreeTypeRegistry::UnregisterImpl(
     const py::object& cls,
     const std::string& registry_namespace) {
-    if (sm_builtins_types.find(cls) != sm_builtins_types.end()) [[unlikely]] {
-        throw py::value_error("PyTree type " + PyRepr(cls) +
-                              " is a built-in type and cannot be unregistered.");
-    }
-
+    // NOTE: must not call back into Python while holding the lock.
     PyTreeTypeRegistry* const registry = Singleton<NoneIsLeaf>();
     if (registry_namespace.empty()) [[unlikely]] {
         const auto it = registry->m_registrations.find(cls);
         if (it == registry->m_registrations.end()) [[unlikely]] {
-            std::ostringstream oss{};
-            oss << "PyTree type " << PyRepr(cls) << " ";
-            if (IsStructSequenceClass(cls)) [[unlikely]] {
-                oss << "is a class of `PyStructSequence`, "
-                    << "which is not explicitly registered in the global namespace.";
-            } else if (IsNamedTupleClass(cls)) [[unlikely]] {
-                oss << "is a subclass of `collections.namedtuple`, "
-                    << "which is not explicitly registered in the global namespace.";
-            } else [[likely]] {
-                oss << "is not registered in the global namespace.";
-            }
-            throw py::value_error(oss.str());
+            return nullptr;
         }
         RegistrationPtr registration = it->second;
         registry->m_registrations.erase(it);
@@ -194,19 +188,7 @@ template <bool NoneIsLeaf>
         const auto named_it =
             registry->m_named_registrations.find(std::make_pair(registry_namespace, cls));
         if (named_it == registry->m_named_registrations.end()) [[unlikely]] {
-            std::ostringstream oss{};
-            oss << "PyTree type " << PyRepr(cls) << " ";
-            if (IsStructSequenceClass(cls)) [[unlikely]] {
-                oss << "is a class of `PyStructSequence`, "
-                    << "which is not explicitly registered ";
-            } else if (IsNamedTupleClass(cls)) [[unlikely]] {
-                oss << "is a subclass of `collections.namedtuple`, "
-                    << "which is not explicitly registered ";
-            } else [[likely]] {
-                oss << "is not registered ";
-            }
-            oss << "in namespace " << PyRepr(registry_namespace) << ".";
-            throw py::value_error(oss.str());
+            return nullptr;
         }
         RegistrationPtr registration = named_it->second;
         registry->m_named_registrations.erase(named_it);
@@ -216,10 +198,44 @@ template <bool NoneIsLeaf>
 
 /*static*/ void PyTreeTypeRegistry::Unregister(const py::object& cls,
                                                const std::string& registry_namespace) {
-    const scoped_write_lock_guard lock{sm_mutex};
+    bool is_builtin = false;
+    RegistrationPtr registration1{nullptr};
+    RegistrationPtr registration2{nullptr};
+    {
+        const scoped_write_lock_guard lock{sm_mutex};
+        is_builtin = (sm_builtins_types.find(cls) != sm_builtins_types.end());
+        if (!is_builtin) [[likely]] {
+            registration1 = UnregisterImpl<NONE_IS_NODE>(cls, registry_namespace);
+            registration2 = UnregisterImpl<NONE_IS_LEAF>(cls, registry_namespace);
+        }
+    }
 
-    const auto registration1 = UnregisterImpl<NONE_IS_NODE>(cls, registry_namespace);
-    const auto registration2 = UnregisterImpl<NONE_IS_LEAF>(cls, registry_namespace);
+    // The error messages and the reference releases may call back into Python, which must not
+    // happen while holding the lock.
+    if (is_builtin) [[unlikely]] {
+        throw py::value_error("PyTree type " + PyRepr(cls) +
+                              " is a built-in type and cannot be unregistered.");
+    }
+    EXPECT_EQ(registration1 == nullptr, registration2 == nullptr);
+    if (registration1 == nullptr) [[unlikely]] {
+        std::ostringstream oss{};
+        oss << "PyTree type " << PyRepr(cls) << " ";
+        if (IsStructSequenceClass(cls)) [[unlikely]] {
+            oss << "is a class of `PyStructSequence`, "
+                << "which is not explicitly registered ";
+        } else if (IsNamedTupleClass(cls)) [[unlikely]] {
+            oss << "is a subclass of `collections.namedtuple`, "
+                << "which is not explicitly registered ";
+        } else [[likely]] {
+            oss << "is not registered ";
+        }
+        if (registry_namespace.empty()) [[unlikely]] {
+            oss << "in the global namespace.";
+        } else [[likely]] {
+            oss << "in namespace " << PyRepr(registry_namespace) << ".";
+        }
+        throw py::value_error(oss.str());
+    }
     EXPECT_TRUE(registration1->type.is(registration2->type));
     EXPECT_TRUE(registration1->flatten_func.is(registration2->flatten_func));
     EXPECT_TRUE(registration1->unflatten_func.is(registration2->unflatten_func));
